@@ -76,6 +76,7 @@ def replay(ctx, path):
 FAMILIES = {
     "camel": {"module": "CamelCase", "judge": "CamelCaseTrace"},
     "typeref": {"module": "TypeRef", "judge": "TypeRefTrace"},
+    "template": {"module": "Template", "judge": "TemplateTrace"},
 }
 
 
@@ -157,7 +158,49 @@ def check_C15(ctx):
     ], fails)
 
 
+def check_C09(ctx):
+    t = ctx.tier
+    gens = ["Template_gen%s_%s.cfg" % (k, t) for k in "TSCDP"]
+    res = run_family(ctx, "template", "Template", gens, "TemplateTrace", rand_n=4000 if ctx.quick() else 80000,
+                     a_cfgs=["Template_A_%s.cfg" % t], shard=8000)
+    fails = vlib.collect_failures(res["trace"], res["bad"], "template", only_prefix="C09")
+    tr = res["trace"]
+
+    def nontrivial(r):
+        c = r["case"]
+        if c["api"] == "T":
+            f = c["fmt"]
+            return any(f[i] == 64 and i + 1 < len(f) and (chr(f[i + 1]).isalnum() and f[i + 1] < 128 or f[i + 1] == 95) for i in range(len(f)))
+        if c["api"] == "Sprintf":
+            return 37 in c["fmt"]
+        return len(c["fmt"]) + len(c["args"]) > 0
+    per_api = {}
+    for r in tr:
+        per_api[r["case"]["api"]] = per_api.get(r["case"]["api"], 0) + 1
+    cov = {
+        "traces_validated_against_impl": len(tr),
+        "evaluations": len(tr),
+        "distinct_nontrivial": _distinct(tr, nontrivial, key=lambda r: json.dumps(r["case"], sort_keys=True)),
+        "rule": "TLC enumerates every T format over a 12-symbol alphabet (letters, digit, _, @, ', %, newline, space, -, 2- and 3-byte runes) and every "
+                "Sprintf format over {a,%,v,T,x,space,@} up to the tier bound (argument kinds chosen per verb, incl. missing), all Comment texts, GoDirective "
+                "argument lists and Snippets/Fragments part lists in bound; each is rendered through gengo.NewSnippetWriter and compared by TemplateTrace.tla with the "
+                "declarative reference. Names are bound by a fixed environment (literal, empty, nil, placeholder-looking, nested template, Snippets, unbound). "
+                "Non-trivial = distinct cases that contain a placeholder (T), a percent sign (Sprintf) or a non-empty input (others).",
+        "exhaustive": True,
+        "per_api": per_api,
+        "samples": [{"api": r["case"]["api"], "text": r["conc"]["text"], "args": r["case"]["args"], "obs": vlib.pretty(r["obs"])}
+                    for r in tr[:: max(1, len(tr) // 5)][:5]],
+        "abstract_cases": res["n_cases"],
+    }
+    return vlib.finish(ctx, "model_checking", cov, [
+        "formats contain no NUL, no U+FEFF and no invalid UTF-8 (text/scanner alters those by design; outside C09's alphabet)",
+        "a '%' that is the very last character of a Sprintf format is left open by the statement (no verb): either outcome is accepted",
+        "surplus Sprintf arguments and %T of non-identifier values are not generated (statement silent)",
+    ], fails)
+
+
 CHECKS = {
+    "C09": check_C09,
     "C15": check_C15,
     "C19": check_C19,
 }
